@@ -213,8 +213,20 @@ def analyse(ctx):
             cursor = strip_tags(st[-1].a).split("->", 1)[1]
         init_ok.append((p, good))
     out["init"] = (ini, init_ok)
+    out["cursor_from_lseek"] = cursor is not None
     if cursor is None:
-        raise BrokenAnalysis("no field of the writer is initialised from lseek() in mtbl_writer_init_fd: the file cursor is not recognised")
+        # not initialised from lseek(): recognise the cursor as the 64-bit writer field that is advanced (field := field + ...)
+        # in the data-block writer; the missing initialisation is reported by offsets()
+        wdb = prog.need("_mtbl_writer_write_data_block", W)
+        rec = prog.record("mtbl_writer", W)
+        wide = set(f_["name"] for f_ in rec["fields"] if (f_.get("ct") or f_.get("t")) in ("unsigned long", "uint64_t", "unsigned long long")) if rec else set()
+        for p in APE.run(prog, cg, wdb, bound=1, inline=("*static",), opaque_calls=(wall.name,)).paths:
+            for e in p.events:
+                m_ = re.match(r"^(\w+)->(\w+)$", strip_tags(e.a)) if e.kind == "store" else None
+                if m_ and m_.group(2) in wide and ("%s->%s@" % (m_.group(1), m_.group(2))) in APE.vstr(e.b):
+                    cursor = m_.group(2)
+    if cursor is None:
+        raise BrokenAnalysis("the writer's file cursor is not recognised (no field set from lseek() at init, none advanced per data block)")
     out["cursor"] = cursor
     for fn in ("_mtbl_writer_write_data_block", "_mtbl_writer_finish"):
         f = prog.need(fn, W)
@@ -271,7 +283,7 @@ def frames(ctx, res, rule):
                           "block framing differs: %s" % fr.why, f.loc(pf.evs[fr.first].node), pf.p.describe(f))
             for pc, i in pf.junk:
                 res.bad(rule, site(f, "frame"), "bytes are written that are neither a block frame nor the trailer: %s" %
-                        ((pc[0], APE.vstr(pc[1]), APE.vstr(pc[2])) if pc[0] == "raw" else (pc[0],)), f.loc(pf.evs[i].node), pf.p.describe(f))
+                        str((pc[0], APE.vstr(pc[1])[:60], APE.vstr(pc[2])[:60]) if pc[0] == "raw" else (pc[0],)), f.loc(pf.evs[i].node), pf.p.describe(f))
             if fn == "_mtbl_writer_write_data_block":
                 res.check(len(pf.frames) == 1 and pf.trailer is None, rule, site(f, "one-frame"), "one frame per data block",
                           "a data block is written as %d frame(s)" % len(pf.frames), f.loc(f.body), pf.p.describe(f))
@@ -299,7 +311,12 @@ def offsets(ctx, res, rule):
     cursor = A["cursor"]
     ini, init_ok = A["init"]
     res.saw(ini)
+    if not A["cursor_from_lseek"]:
+        res.bad(rule, site(ini, "initial-offset"), "the file cursor (%s) is not initialised from the descriptor's current offset: writing does not start at the "
+                "current file offset" % cursor, ini.loc(ini.body))
     for p, good in init_ok:
+        if not A["cursor_from_lseek"]:
+            break
         res.check(good, rule, site(ini, "initial-offset"), "the file cursor (%s) starts at the descriptor's current offset (bytes before it are left alone)" % cursor,
                   "writing does not start at the current file offset", ini.loc(ini.body), p.describe(ini))
     f, pfs = A["paths"]["_mtbl_writer_write_data_block"]
